@@ -7,6 +7,7 @@ import (
 	"time"
 
 	"github.com/anishathalye/porcupine"
+	badger "github.com/dgraph-io/badger/v4"
 
 	"verif/h/core"
 	"verif/h/hist"
@@ -87,7 +88,7 @@ func C03(c *core.Ctx) {
 	c.Rule("recorded concurrent histories where every writer touches >=3 keys and every read-only transaction reads all keys, 40% CommitWith callbacks, " +
 		"commits straddling memtable rotation/flush, delays at commit.afterTs/afterSend/beforeDone and in writeRequests; oracles: marker versions pairwise distinct; " +
 		"Commit(A) returned before Commit(B) called => ts(A)<ts(B); transaction started after an ack has ReadTs >= that ts and (read oracle) sees all or none of every " +
-		"transaction; failed commits leave no marker; boundary-only porcupine register check per key; distinct = option variants x (sync/async) x result classes observed")
+		"transaction; failed commits (conflicts, and in every second history ErrBlockedWrites from a concurrent DropPrefix of an unrelated prefix) leave no marker; boundary-only porcupine register check per key; distinct = option variants x (sync/async) x result classes observed")
 	work := c.WorkDir()
 	defer os.RemoveAll(work)
 	idx := 0
@@ -109,6 +110,34 @@ func C03(c *core.Ctx) {
 					m.ValSizes = []int{24, 64, 65, 900, 2500}
 					return m
 				}}
+			// every second history: DropPrefix of a prefix nobody writes runs in a loop, so commits are
+			// refused with ErrBlockedWrites after they obtained their timestamp; a refused commit must
+			// leave no trace and must not disturb the timestamps of the commits around it
+			var stopDrops chan struct{}
+			var dropsDone chan int
+			if idx%2 == 0 {
+				stopDrops, dropsDone = make(chan struct{}), make(chan int, 1)
+				hr.OnStart = func(db *badger.DB, e *hist.Engine) {
+					go func() {
+						n := 0
+						for {
+							select {
+							case <-stopDrops:
+								dropsDone <- n
+								return
+							case <-time.After(3 * time.Millisecond):
+							}
+							if err := db.DropPrefix([]byte("zz-nobody-writes-this")); err == nil {
+								n++
+							}
+						}
+					}()
+				}
+				hr.BeforeResolve = func() {
+					close(stopDrops)
+					c.Count("commit.unrelated_dropprefix_calls", int64(<-dropsDone))
+				}
+			}
 			res, err := runHistory(c, work, idx, hr)
 			if err != nil {
 				c.Inconclusive(err.Error())
@@ -157,5 +186,5 @@ func C03(c *core.Ctx) {
 		c.Inconclusive("no ordered commit pairs or no memtable rotation observed")
 	}
 	c.CheckRaces(nil, "", "")
-	c.Assume("size-limit and closed-database rejections are exercised in C28 and C38; here rejections are conflicts")
+	c.Assume("size-limit and closed-database rejections are exercised in C28 and C38; here rejections are conflicts and ErrBlockedWrites (commits racing with a DropPrefix of an unrelated prefix)")
 }
